@@ -166,9 +166,11 @@ let usum_of (s : state) (n : nat) : nat option =
 
 let answer (s : state) (toks : Stdlib.String.t list) : Stdlib.String.t =
   match toks with
-  | [ "wf" ] ->
+  | [ "wf"; n ] ->
+    (* the hypotheses of the theorems of Props/C11.v and Props/C12.v, evaluated on this state *)
     "inv1a=" ^ sbool (inv1a_b s) ^ " inv2a=" ^ sbool (inv2a_b s) ^ " kinds=" ^ sbool (wfk_b s)
-    ^ " acyclic=" ^ sbool (acyclic_b s)
+    ^ " acyclic=" ^ sbool (acyclic_b s) ^ " pinwire=" ^ sbool (wfc_b s)
+    ^ " standalone=" ^ sbool (top_standalone_b s (id_of_tok n))
   | [ "enum"; k; n; r ] ->
     let n = id_of_tok n and r = bool_of_tok r in
     shrefs (match k with
